@@ -57,7 +57,7 @@ ToSet(s) == {s[i] : i \in DOMAIN s}
 Ev == Rec[l]
 Is(e) == l <= Len(Rec) /\ Ev.ev = e /\ l' = l + 1
 
-AsyOff == [issued |-> 0, started |-> 0, incall |-> "none", waits |-> 0]
+AsyOff == [issued |-> 0, started |-> 0, incall |-> "none", waits |-> 0, poisoned |-> FALSE]
 OkInit == [c18 |-> TRUE, c20 |-> TRUE, c19 |-> TRUE, built |-> TRUE, c10mt |-> TRUE, c12s |-> TRUE,
            c04 |-> TRUE, c05 |-> TRUE, c07 |-> TRUE, c12 |-> TRUE, c14 |-> TRUE, c13 |-> TRUE, c15 |-> TRUE, c01 |-> TRUE]
 
@@ -407,7 +407,9 @@ TrPanic ==
   /\ IF dead \/ Ev.s \notin Sys THEN UNCHANGED <<ok, xvars>>
      ELSE /\ st' = [st EXCEPT ![Ev.s] = "pan"]
           /\ ok' = [ok EXCEPT !.c04 = @ /\ st[Ev.s] = "run"]
-          /\ UNCHANGED <<runs, dsp, world, w0, nset, ndis, asy>>
+          \* a panic inside a background job of the async dispatcher: the job never hands the state back
+          /\ asy' = IF \E b \in DOMAIN dsp : dsp[b].mode = "async" THEN [asy EXCEPT !.poisoned = TRUE] ELSE asy
+          /\ UNCHANGED <<runs, dsp, world, w0, nset, ndis>>
   /\ UNCHANGED pvars
 
 Pans == {s \in Sys : st[s] = "pan"}
@@ -532,8 +534,13 @@ TrACall ==
              /\ UNCHANGED <<st, runs, dsp, world, w0, nset, ndis>>
              /\ ok' = [ok EXCEPT
                   \* C12: wait() runs every thread-local system (exactly once per wait)
-                  !.c12 = @ /\ (e.op = "wait" => \A x \in ToSet(tls[TopB]) : st[x] = "done" /\ runs[x] = asy.waits + 1),
-                  !.c15 = @ /\ e.out = "ok" /\
+                  !.c12 = @ /\ ((e.op = "wait" /\ ~asy.poisoned) => \A x \in ToSet(tls[TopB]) : st[x] = "done" /\ runs[x] = asy.waits + 1),
+                  !.c15 = @ /\
+                    IF asy.poisoned THEN
+                       \* a system of a background dispatch panicked: that dispatch never completes, so no
+                       \* call may report completion - every taking call fails; running() fails or says true
+                       (e.out = "panic" \/ (e.op = "running" /\ e.ret))
+                    ELSE e.out = "ok" /\
                   CASE e.op = "running" ->
                          \* true while anything runs; false only once everything has finished
                          /\ ((\E x \in Sys : st[x] = "run") => e.ret)
